@@ -127,7 +127,7 @@ theorem scan_simS (c : Cfg) (tbl : Table) (hadv : c.adv = true) (d : Nat) (ex : 
                         = (args.map fun x => cost (none :: D) x + 2).sum + cost (some m.name :: D) body + 2
                           + scanCostS tbl ex cost n D rest := by
                       simp only [scanCostS, hk', Bool.false_eq_true, if_false, hq', hm, hargs, callOf, hlp, if_true, hcall, hrr, body]
-                    obtain ⟨P2, hp2, hstep⟩ := mstep_call c tbl P S D F pr a lp r m ps args rest hk' hd' hq' hm hargs hlp' hcall
+                    obtain ⟨P2, hp2, hstep⟩ := mstep_call c tbl P S D F pr a lp r m ps args rest hk' hd' hq' hm hargs hplain1 hlp' hcall
                     have hrepl : replaceFn m ([] ++ argList m (ex (none :: D)) args ([] : List Arg).length) = .ok repl := by
                       simp only [replRef] at hrr
                       simp only [List.nil_append, List.length_nil]
